@@ -707,16 +707,66 @@ Proof.
     destruct Hin as [<- | []]; repeat split; reflexivity.
 Qed.
 
-Lemma bar_points_evs : forall r c ops now (b : bar R),
-  Forall (pt_on_line r c) (bar_points ops now b) -> Forall (ev_on_line r c) (bar_evs ops now b).
+(** events that are on the line, or bring no news (the position the estimator already has) *)
+Fixpoint line_ok (r c : R) (evs : list ev) (e : est R) : Prop :=
+  match evs with
+  | [] => True
+  | x :: rest =>
+      (ev_on_line r c x \/ exists t, x = ERec (prev_steps e) t) /\ line_ok r c rest (est_ev x e)
+  end.
+
+Lemma line_ok_segs : forall r c evs (e : est R),
+  on_line r c (prev_steps e) (prev_time e) -> line_ok r c evs e -> segs_ok (fun x => x = r) evs e.
 Proof.
-  intros r c ops. induction ops as [|o rest IH]; intros now b H; [constructor|].
+  intros r c evs. induction evs as [|x evs IH]; intros e He Hl; [exact I|].
+  cbn [line_ok] in Hl. destruct Hl as [Hx Hrest]. cbn [segs_ok].
+  destruct Hx as [Hx | [t Hx]].
+  - split.
+    + destruct x as [new now | now pos]; [|exact I]. intros Hs Ht.
+      now apply (seg_rate_on_line r c).
+    + apply IH; [|exact Hrest].
+      destruct (est_ev_prev x e) as [[E1 E2] | [E1 E2]]; rewrite E1, E2; assumption.
+  - subst x. split; [intros Hs; exfalso; lia|].
+    assert (E : est_ev (ERec (prev_steps e) t) e = e).
+    { cbn [est_ev]. apply est_record_ignore; [lia | left; reflexivity]. }
+    apply IH; [rewrite E; exact He | exact Hrest].
+Qed.
+
+Lemma line_ok_app : forall r c a rest (e : est R),
+  line_ok r c a e -> line_ok r c rest (est_run a e) -> line_ok r c (a ++ rest) e.
+Proof.
+  intros r c a. induction a as [|x a IH]; intros rest e Ha Hr; [exact Hr|].
+  cbn [app line_ok est_run] in *. destruct Ha as [H1 H2]. split; [exact H1|]. now apply IH.
+Qed.
+
+Lemma evs_step_rec : forall o now (b : bar R) x, In x (bar_evs_step o now b) ->
+  is_reset_op o = false -> exists p t, x = ERec p t.
+Proof.
+  intros o now b x Hin Hr.
+  destruct o; cbn [bar_evs_step is_reset_op] in *; try contradiction; try discriminate Hr;
+    try (destruct (fst (lim_allow now (b_lim b))); [|contradiction]);
+    destruct Hin as [<- | []]; eexists; eexists; reflexivity.
+Qed.
+
+Lemma bar_points_line_ok : forall r c ops now (b : bar R),
+  Forall (pt_on_line r c) (bar_points ops now b) -> line_ok r c (bar_evs ops now b) (b_est b).
+Proof.
+  intros r c ops. induction ops as [|o rest IH]; intros now b H; [exact I|].
   cbn [bar_points bar_evs] in *. apply Forall_app in H. destruct H as [H1 H2].
-  apply Forall_app. split; [|now apply IH].
-  apply Forall_forall. intros x Hin.
-  destruct (evs_step_point o now b x Hin) as (Hr & Hp & Ht).
-  rewrite Hr in H1. apply Forall_inv in H1.
-  unfold ev_on_line. rewrite Hp, Ht. exact H1.
+  apply line_ok_app.
+  - destruct (evs_step_shape o now b) as [E | (x & E & Ex)]; rewrite E; [exact I|].
+    cbn [line_ok]. split; [|exact I].
+    assert (Hin : In x (bar_evs_step o now b)) by (rewrite E; left; reflexivity).
+    destruct (evs_step_point o now b x Hin) as (Hr & Hp & Ht).
+    unfold brings_news in H1. rewrite Hr in H1. cbn [andb] in H1.
+    destruct (is_reset_op o) eqn:Hres; cbn [orb] in H1.
+    + left. apply Forall_inv in H1. unfold ev_on_line. rewrite Hp, Ht. exact H1.
+    + destruct (N.eqb_spec (b_pos (bar_step Rar o now b)) (prev_steps (b_est b))) as [Heq | Hne];
+        cbn [negb] in H1.
+      * right. destruct (evs_step_rec o now b x Hin Hres) as (p & t & Hx). subst x.
+        cbn [ev_pos] in Hp. exists t. rewrite Hp, Heq. reflexivity.
+      * left. apply Forall_inv in H1. unfold ev_on_line. rewrite Hp, Ht. exact H1.
+  - rewrite <- bar_step_est. now apply IH.
 Qed.
 
 Theorem bar_steady_line : forall r c len t0 ops now', no_wrap ops t0 ->
@@ -733,7 +783,7 @@ Theorem bar_steady_line : forall r c len t0 ops now', no_wrap ops t0 ->
 Proof.
   intros r c len t0 ops now' Hn H0 Hpts.
   apply bar_steady_every_instant; [exact Hn|].
-  apply (line_segs_ok r c); [exact H0 | now apply bar_points_evs].
+  apply (line_ok_segs r c); [exact H0 | now apply bar_points_line_ok].
 Qed.
 
 (** the literal reading (exact at every query instant after the last update) is REFUTED on a
@@ -842,4 +892,40 @@ Proof.
     assert (Hd : b_done (fst (run_state Rar rewind_wit_ops 0 (bar_new Rar (Some 100%N) 0))) = false)
       by reflexivity.
     change (T Rar) with R in *. rewrite Hd, He. apply est_sps_R_restart. cbn [start_time]. lia.
+Qed.
+
+(** a steady stream with an interleaved tick in the middle of a gap: the tick brings no news and
+    is not listed among the points that have to be on the line *)
+Lemma est_record_prev_steps : forall (A : arith) new now (e : est (T A)),
+  prev_steps (est_record A new now e) =
+  if ((new <=? prev_steps e) || (now <=? prev_time e))%N
+  then (if (new <? prev_steps e)%N then new else prev_steps e) else new.
+Proof.
+  intros A new now e. unfold est_record.
+  destruct ((new <=? prev_steps e) || (now <=? prev_time e))%N; [|reflexivity].
+  destruct (new <? prev_steps e)%N; reflexivity.
+Qed.
+
+Definition tick_wit_ops : list eop :=
+  [Adv 15000000000; UpdPos 15; Adv 5000000000; Tick; Adv 10000000000; UpdPos 30].
+
+Lemma tick_wit_points : forall len,
+  bar_points tick_wit_ops 0 (bar_new Rar len 0) = [(15, 15000000000); (30, 30000000000)]%N /\
+  Forall (pt_on_line 1 0) (bar_points tick_wit_ops 0 (bar_new Rar len 0)).
+Proof.
+  intros len.
+  assert (E : bar_points tick_wit_ops 0 (bar_new Rar len 0) = [(15, 15000000000); (30, 30000000000)]%N).
+  { unfold tick_wit_ops. cbn [bar_points clock_step app]. unfold brings_news.
+    cbn [reaches_est is_reset_op andb orb bar_step bar_record b_pos b_est b_len b_done b_started b_lim bar_new].
+    change (wadd64 0 15000000000) with 15000000000%N.
+    change (wadd64 15000000000 5000000000) with 20000000000%N.
+    change (wadd64 20000000000 10000000000) with 30000000000%N.
+    assert (P1 : prev_steps (est_record Rar 15 15000000000 (est_new Rar 0)) = 15%N)
+      by (rewrite (est_record_prev_steps Rar); reflexivity).
+    assert (P2 : prev_steps (est_record Rar 15 20000000000
+                               (est_record Rar 15 15000000000 (est_new Rar 0))) = 15%N).
+    { rewrite (est_record_prev_steps Rar), P1. reflexivity. }
+    change (T Rar) with R in *. rewrite P2, P1. reflexivity. }
+  split; [exact E|]. rewrite E.
+  repeat constructor; unfold pt_on_line, on_line, secs; cbn [fst snd Z.of_N]; lra.
 Qed.
